@@ -11,6 +11,7 @@ import (
 	"os"
 	"sort"
 	"sync"
+	"sync/atomic"
 	"testing"
 	"time"
 
@@ -18,6 +19,7 @@ import (
 
 	"perun.network/go-perun/channel"
 	"perun.network/go-perun/client"
+	"perun.network/go-perun/wallet"
 	"perun.network/go-perun/wire"
 	perunser "perun.network/go-perun/wire/perunio/serializer"
 	"perun.network/go-perun/wire/protobuf"
@@ -42,8 +44,13 @@ type Step struct {
 	ToPeer  bool   `json:"topeer"` // direction of the transfer
 	Final   bool   `json:"final"`
 	Accept  bool   `json:"accept"`
-	DelayMs int    `json:"delay"`      // responder's handler delay
-	With    bool   `json:"concurrent"` // runs concurrently with the next step
+	DelayMs int    `json:"delay"`             // responder's handler delay
+	With    bool   `json:"concurrent"`        // runs concurrently with the next step
+	CtxEnds bool   `json:"ctxends,omitempty"` // the context the responder's handler passes to Accept ends as soon as the acceptance is on the wire
+	// Early: the channel's proposer issues this update as soon as its
+	// ProposeChannel call has returned, while the channels are still being
+	// opened concurrently (only in cases with EarlyOpen)
+	Early bool `json:"early,omitempty"`
 }
 
 // Case is a program of update proposals on 1-3 channels of one client pair.
@@ -51,12 +58,41 @@ type Case struct {
 	NChans int    `json:"nchans"`
 	Ser    string `json:"ser"`
 	Steps  []Step `json:"steps"`
+	// Stepwise: everything is judged at quiescence after every group, not only
+	// at the end (costs the back-to-back schedules, finds a divergence before
+	// the follow-up requests time out)
+	Stepwise bool `json:"stepwise,omitempty"`
+	// EarlyOpen: the channels are opened concurrently; FundDelay[k] ms pass
+	// between the funding of channel k being complete and the responder's
+	// funder returning, so that the proposer's first updates reach a responder
+	// that has not registered the channel yet
+	EarlyOpen bool  `json:"earlyopen,omitempty"`
+	FundDelay []int `json:"funddelay,omitempty"`
 }
 
 func drawCase(t *rapid.T) Case {
 	var c Case
 	c.NChans = []int{1, 1, 2, 3}[rapid.IntRange(0, 3).Draw(t, "nchans")]
 	c.Ser = rapid.SampledFrom([]string{"", "", "native", "protobuf"}).Draw(t, "ser")
+	c.Stepwise = rapid.Bool().Draw(t, "stepwise")
+	c.EarlyOpen = rapid.IntRange(0, 3).Draw(t, "earlyopen") == 0
+	if c.EarlyOpen {
+		for k := 0; k < c.NChans; k++ {
+			c.FundDelay = append(c.FundDelay, []int{0, 1, 3, 8, 15}[rapid.IntRange(0, 4).Draw(t, "funddelay")])
+			ne := rapid.IntRange(0, 2).Draw(t, "nearly")
+			for j := 0; j < ne; j++ {
+				c.Steps = append(c.Steps, Step{
+					Chan:    k,
+					By:      k % 2, // the channel's proposer
+					Amount:  uint64(rapid.IntRange(0, 5).Draw(t, "amount")),
+					ToPeer:  rapid.Bool().Draw(t, "topeer"),
+					Accept:  rapid.Bool().Draw(t, "accept"),
+					DelayMs: []int{0, 0, 1, 5}[rapid.IntRange(0, 3).Draw(t, "delay")],
+					Early:   true,
+				})
+			}
+		}
+	}
 	n := rapid.IntRange(1, 20).Draw(t, "nsteps")
 	for i := 0; i < n; i++ {
 		s := Step{
@@ -68,14 +104,18 @@ func drawCase(t *rapid.T) Case {
 			Accept:  rapid.IntRange(0, 3).Draw(t, "accept") != 0,
 			DelayMs: []int{0, 0, 1, 5, 20}[rapid.IntRange(0, 4).Draw(t, "delay")],
 			With:    rapid.IntRange(0, 2).Draw(t, "with") == 0,
+			CtxEnds: rapid.IntRange(0, 4).Draw(t, "ctxends") == 0,
 		}
 		// two thirds of the overlapping groups avoid a head-on collision (both
 		// parties proposing on one channel), which always ends in timeouts
-		if i > 0 && c.Steps[i-1].With && c.Steps[i-1].Chan == s.Chan && c.Steps[i-1].By != s.By && rapid.IntRange(0, 2).Draw(t, "nocollide") != 0 {
-			if c.NChans > 1 && rapid.Bool().Draw(t, "otherchan") {
-				s.Chan = (s.Chan + 1) % c.NChans
-			} else {
-				s.By = c.Steps[i-1].By
+		if i > 0 {
+			prev := c.Steps[len(c.Steps)-1]
+			if prev.With && prev.Chan == s.Chan && prev.By != s.By && rapid.IntRange(0, 2).Draw(t, "nocollide") != 0 {
+				if c.NChans > 1 && rapid.Bool().Draw(t, "otherchan") {
+					s.Chan = (s.Chan + 1) % c.NChans
+				} else {
+					s.By = prev.By
+				}
 			}
 		}
 		c.Steps = append(c.Steps, s)
@@ -102,8 +142,9 @@ func enc(s *channel.State) []byte {
 }
 
 type decision struct {
-	accept bool
-	delay  time.Duration
+	accept  bool
+	delay   time.Duration
+	ctxEnds bool
 }
 
 type result struct {
@@ -158,6 +199,11 @@ func verifyTx(params *channel.Params, tx channel.Transaction) error {
 	return nil
 }
 
+// shrinking is set while rapid minimises a failing case: requests that go
+// unanswered then cost 400 ms instead of 5 s (a shrink pass runs hundreds of
+// candidates and rapid looks at its time budget only between passes).
+var shrinking atomic.Bool
+
 func runCase(c Case) *h.Outcome {
 	o := &h.Outcome{}
 	fail := func(sig, format string, args ...any) *h.Outcome {
@@ -174,13 +220,24 @@ func runCase(c Case) *h.Outcome {
 		pr.Env.Ledger.Credit(pr.P[i].Name, pr.P[i].Acc.Address(), 100, big.NewInt(100000))
 	}
 	chans := make([][2]*client.Channel, c.NChans)
-	for k := 0; k < c.NChans; k++ {
-		chs, err := pr.OpenLedger(k%2, assets, [][2]*big.Int{{big.NewInt(100), big.NewInt(100)}}, nil, 10, nil, nil)
-		if err != nil {
-			return fail("harness-open", "opening channel %d: %v", k, err)
-		}
-		chans[k] = chs
+	// contexts to cancel when the acceptance of (channel, version) is published
+	type accKey struct {
+		id channel.ID
+		v  uint64
 	}
+	var amu sync.Mutex
+	onAcc := map[accKey]context.CancelFunc{}
+	pr.Env.Bus.Tap(func(e *wire.Envelope) {
+		if m, ok := e.Msg.(*client.ChannelUpdateAccMsg); ok {
+			amu.Lock()
+			cancel := onAcc[accKey{m.ChannelID, m.Version}]
+			delete(onAcc, accKey{m.ChannelID, m.Version})
+			amu.Unlock()
+			if cancel != nil {
+				cancel()
+			}
+		}
+	})
 	// decisions of the responder, keyed by channel and proposer
 	var dmu sync.Mutex
 	decisions := map[channel.ID]map[channel.Index]decision{}
@@ -197,6 +254,12 @@ func runCase(c Case) *h.Outcome {
 			}
 			ctx, cancel := context.WithTimeout(context.Background(), sim.HangLimit)
 			defer cancel()
+			if d.accept && d.ctxEnds {
+				// no request times out by this: the acceptance has been sent in time
+				amu.Lock()
+				onAcc[accKey{u.State.ID, u.State.Version}] = cancel
+				amu.Unlock()
+			}
 			if d.accept {
 				_ = r.Accept(ctx)
 			} else {
@@ -204,19 +267,351 @@ func runCase(c Case) *h.Outcome {
 			}
 		})
 	}
+	// evaluate judges everything that has happened so far, at quiescence.  It is
+	// called at the end of the program and - in stepwise cases, as long as no
+	// request has timed out - after every group: the prefix of a program is a
+	// program, and a divergence is then seen before the follow-up requests time
+	// out and take the run out of the scope of clauses (a), (b) and (d).
+	var results []result
+	var usedChansEarly []int
+	evaluate := func(final bool) *h.Outcome {
+		limit := 30 * time.Millisecond
+		if !final {
+			limit = 6 * time.Millisecond
+		}
+		if !pr.Env.Quiesce(limit, sim.HangLimit) {
+			return fail("harness", "world did not become quiet")
+		}
+		timedOut := false
+		for _, r := range results {
+			if final {
+				o.Class("update:" + r.kind)
+			}
+			if r.kind == "timeout" {
+				timedOut = true
+			}
+		}
+		if timedOut && final {
+			o.Class("run-with-timeout")
+		}
+		if timedOut && !final {
+			return nil
+		}
+		for _, r := range results {
+			// after a timed-out request a late response of the abandoned attempt can
+			// reach a later attempt with the same version; the property makes no
+			// promise for such runs beyond clause (c)
+			if r.kind == "other" && !timedOut {
+				return fail("update-unexpected-error", "step %d: Update failed with an error that is neither a rejection, a timeout nor a local refusal although no request timed out: %v", r.step, r.err)
+			}
+		}
+		// ---- merged log
+		type ev = sim.Event
+		var log []ev
+		for i := 0; i < 2; i++ {
+			log = append(log, pr.P[i].Rec.Events()...)
+		}
+		sort.Slice(log, func(i, j int) bool { return log[i].Seq < log[j].Seq })
+		params := map[channel.ID]*channel.Params{}
+		for k := range chans {
+			params[chans[k][0].ID()] = chans[k][0].Params()
+		}
+		// (c) every enabled transaction is fully and validly signed
+		type enabledEv struct {
+			seq uint64
+			enc []byte
+		}
+		enabledSeq := map[channel.ID][]enabledEv{}
+		enabledBy := [2]map[channel.ID]map[uint64][]byte{{}, {}}
+		who := map[string]int{pr.P[0].Name: 0, pr.P[1].Name: 1}
+		fullySigned := map[channel.ID]map[uint64]map[string]bool{}
+		ver := map[channel.ID]*[2]uint64{}
+		for _, e := range log {
+			p := params[e.Chan]
+			if p == nil {
+				continue
+			}
+			note := func(tx channel.Transaction) {
+				if tx.State == nil || verifyTx(p, tx) != nil {
+					return
+				}
+				if fullySigned[e.Chan] == nil {
+					fullySigned[e.Chan] = map[uint64]map[string]bool{}
+				}
+				if fullySigned[e.Chan][tx.State.Version] == nil {
+					fullySigned[e.Chan][tx.State.Version] = map[string]bool{}
+				}
+				fullySigned[e.Chan][tx.State.Version][string(enc(tx.State))] = true
+			}
+			note(e.Staged)
+			note(e.Cur)
+			if e.Kind != "enabled" {
+				continue
+			}
+			if err := verifyTx(p, e.Cur); err != nil {
+				return fail("enabled-not-fully-signed", "%s enabled version %d of channel %s: %v", e.Who, e.Cur.State.Version, sim.Describe(e.Chan), err)
+			}
+			i := who[e.Who]
+			if enabledBy[i][e.Chan] == nil {
+				enabledBy[i][e.Chan] = map[uint64][]byte{}
+			}
+			enabledBy[i][e.Chan][e.Cur.State.Version] = enc(e.Cur.State)
+			enabledSeq[e.Chan] = append(enabledSeq[e.Chan], enabledEv{e.Seq, enc(e.Cur.State)})
+			if ver[e.Chan] == nil {
+				ver[e.Chan] = &[2]uint64{}
+			}
+			ver[e.Chan][i] = e.Cur.State.Version
+			if !timedOut {
+				a, b := ver[e.Chan][0], ver[e.Chan][1]
+				if a > b+1 || b > a+1 {
+					return fail("versions-diverge", "channel %s: party versions %d and %d differ by more than one (no request timed out)", sim.Describe(e.Chan), a, b)
+				}
+			}
+		}
+		if !timedOut {
+			for id, byVer := range fullySigned {
+				for v, states := range byVer {
+					if len(states) > 1 {
+						return fail("two-states-one-version", "channel %s: %d different states of version %d obtained both signatures", sim.Describe(id), len(states), v)
+					}
+				}
+			}
+		}
+		// (a), (b) per update.  Only in runs without a timed-out request, as the
+		// property states: the response to an abandoned request stays cached at the
+		// proposer and can answer a later request with the same version number (the
+		// thorough tier found such a run: a stale rejection from a collision made a
+		// later, accepted update return "rejected").
+		for _, r := range results {
+			if timedOut {
+				continue
+			}
+			s := c.Steps[r.step]
+			ch := chans[s.Chan]
+			id := ch[0].ID()
+			if r.proposed == nil {
+				continue
+			}
+			pe := enc(r.proposed)
+			v := r.proposed.Version
+			switch r.kind {
+			case "ok":
+				got, ok := enabledBy[s.By][id][v]
+				if !ok || !bytes.Equal(got, pe) {
+					return fail("success-but-proposer-state-differs", "step %d: Update returned nil but the proposer did not enable the proposed state as version %d", r.step, v)
+				}
+				got, ok = enabledBy[s.By^1][id][v]
+				if !ok || !bytes.Equal(got, pe) {
+					return fail("success-but-peer-state-differs", "step %d: Update returned nil but at quiescence the peer has not enabled the proposed state as version %d", r.step, v)
+				}
+			case "rejected":
+				// while the call was running nobody enabled the proposed state (a later,
+				// identical proposal may of course be accepted), unless an identical
+				// proposal ran concurrently
+				twin := false
+				for _, r2 := range results {
+					if r2.step != r.step && r2.proposed != nil && c.Steps[r2.step].Chan == s.Chan && bytes.Equal(enc(r2.proposed), pe) && r2.startSeq <= r.endSeq && r.startSeq <= r2.endSeq {
+						twin = true
+					}
+				}
+				if twin {
+					o.Class("unspecified:identical-concurrent-proposal")
+					break
+				}
+				for _, ev := range enabledSeq[id] {
+					if ev.seq > r.startSeq && ev.seq <= r.endSeq && bytes.Equal(ev.enc, pe) {
+						return fail("rejected-but-enabled", "step %d: Update returned a rejection but the proposed state was enabled while the call was running", r.step)
+					}
+				}
+			}
+		}
+		// after a run without timeouts both sides agree and are ready
+		if !timedOut {
+			for k, ch := range chans {
+				a, b := ch[0].State(), ch[1].State()
+				if !bytes.Equal(enc(a), enc(b)) {
+					return fail("final-states-differ", "channel %d: the parties' current states differ at quiescence (v%d / v%d)", k, a.Version, b.Version)
+				}
+				for i := 0; i < 2; i++ {
+					ph := ch[i].Phase()
+					if ph != channel.Acting && ph != channel.Final {
+						return fail("not-ready", "channel %d: party %d is in phase %v at quiescence", k, i, ph)
+					}
+				}
+			}
+		}
+		return nil
+	}
+	// execStep runs one update proposal and classifies its result.
+	execStep := func(si int, limit time.Duration) result {
+		s := c.Steps[si]
+		ch := chans[s.Chan][s.By]
+		from := int(ch.Idx())
+		if !s.ToPeer {
+			from ^= 1
+		}
+		var proposed *channel.State
+		startSeq := pr.Env.Seq.Load()
+		ctx, cancel := context.WithTimeout(context.Background(), limit)
+		defer cancel()
+		err := ch.Update(ctx, func(st *channel.State) {
+			amt := new(big.Int).SetUint64(s.Amount)
+			if st.Balances[0][from].Cmp(amt) >= 0 {
+				sim.Transfer(0, from, amt, s.Final)(st)
+			} else if s.Final {
+				st.IsFinal = true
+			}
+			proposed = st.Clone()
+			proposed.Version++
+		})
+		return result{step: si, proposed: proposed, err: err, kind: classify(err), startSeq: startSeq, endSeq: pr.Env.Seq.Load()}
+	}
+	// ---- opening
+	early := map[int][]int{} // channel -> early steps
+	for si, st := range c.Steps {
+		if st.Early && c.EarlyOpen {
+			early[st.Chan] = append(early[st.Chan], si)
+		}
+	}
+	if !c.EarlyOpen {
+		for k := 0; k < c.NChans; k++ {
+			chs, err := pr.OpenLedger(k%2, assets, [][2]*big.Int{{big.NewInt(100), big.NewInt(100)}}, nil, 10, nil, nil)
+			if err != nil {
+				return fail("harness-open", "opening channel %d: %v", k, err)
+			}
+			chans[k] = chs
+		}
+	} else {
+		o.Class("early-open")
+		// channel k has the initial balances (100+k, 100), which tells the ledger hook which channel is funded
+		pr.Env.Ledger.SetOnFunded(func(who string, req channel.FundingReq) {
+			k := int(new(big.Int).Add(req.State.Balances[0][0], req.State.Balances[0][1]).Int64()) - 200
+			if k >= 0 && k < c.NChans && who == pr.P[(k%2)^1].Name && c.FundDelay[k] > 0 {
+				time.Sleep(time.Duration(c.FundDelay[k]) * time.Millisecond)
+			}
+		})
+		respCh := [2]chan *client.Channel{make(chan *client.Channel, 8), make(chan *client.Channel, 8)}
+		for i := 0; i < 2; i++ {
+			i := i
+			pr.P[i].SetHandlers(func(cp client.ChannelProposal, r *client.ProposalResponder) {
+				ctx, cancel := context.WithTimeout(context.Background(), sim.HangLimit)
+				defer cancel()
+				lp, ok := cp.(*client.LedgerChannelProposalMsg)
+				if !ok {
+					_ = r.Reject(ctx, "unexpected proposal type")
+					return
+				}
+				ch, err := r.Accept(ctx, lp.Accept(map[wallet.BackendID]wallet.Address{0: pr.P[i].Acc.Address()}, client.WithRandomNonce()))
+				if err != nil {
+					ch = nil
+				}
+				respCh[i] <- ch
+			}, nil)
+		}
+		openErr := make([]error, c.NChans)
+		earlyRes := make([][]result, c.NChans)
+		var owg sync.WaitGroup
+		for k := 0; k < c.NChans; k++ {
+			owg.Add(1)
+			go func(k int) {
+				defer owg.Done()
+				by := k % 2
+				prop, err := client.NewLedgerChannelProposal(10, map[wallet.BackendID]wallet.Address{0: pr.P[by].Acc.Address()},
+					sim.MakeAlloc(assets, [][2]*big.Int{{big.NewInt(int64(100 + k)), big.NewInt(100)}}),
+					[]map[wallet.BackendID]wire.Address{pr.P[by].WireAddr, pr.P[by^1].WireAddr}, client.WithRandomNonce())
+				if err != nil {
+					openErr[k] = err
+					return
+				}
+				ctx, cancel := context.WithTimeout(context.Background(), sim.HangLimit)
+				defer cancel()
+				ch, err := pr.P[by].Client.ProposeChannel(ctx, prop)
+				if err != nil {
+					openErr[k] = err
+					return
+				}
+				chans[k][by] = ch
+				// the proposer goes ahead at once
+				for _, si := range early[k] {
+					st := c.Steps[si]
+					dmu.Lock()
+					if decisions[ch.ID()] == nil {
+						decisions[ch.ID()] = map[channel.Index]decision{}
+					}
+					decisions[ch.ID()][ch.Idx()] = decision{accept: st.Accept, delay: time.Duration(st.DelayMs) * time.Millisecond}
+					dmu.Unlock()
+					earlyRes[k] = append(earlyRes[k], execStep(si, 5*time.Second))
+				}
+			}(k)
+		}
+		owg.Wait()
+		for k := 0; k < c.NChans; k++ {
+			if openErr[k] != nil {
+				return fail("harness-open", "opening channel %d concurrently: %v", k, openErr[k])
+			}
+		}
+		// the responders' handles, matched by channel id
+		need := [2]int{}
+		for k := 0; k < c.NChans; k++ {
+			need[(k%2)^1]++
+		}
+		for i := 0; i < 2; i++ {
+			for n := 0; n < need[i]; n++ {
+				select {
+				case ch := <-respCh[i]:
+					if ch == nil {
+						return fail("harness-open", "a responder failed to open its channel")
+					}
+					for k := 0; k < c.NChans; k++ {
+						if chans[k][(k%2)] != nil && chans[k][k%2].ID() == ch.ID() {
+							chans[k][i] = ch
+						}
+					}
+				case <-time.After(sim.HangLimit):
+					return fail("harness-open", "a responder did not finish opening")
+				}
+			}
+		}
+		for k := 0; k < c.NChans; k++ {
+			if chans[k][0] == nil || chans[k][1] == nil {
+				return fail("harness-open", "channel %d: handle missing after the concurrent opening", k)
+			}
+			for _, r := range earlyRes[k] {
+				results = append(results, r)
+				usedChansEarly = append(usedChansEarly, k)
+				if c.Steps[r.step].Accept {
+					o.Class("early-update:" + r.kind)
+				} else {
+					o.Class("early-update-to-be-rejected:" + r.kind)
+				}
+			}
+		}
+		pr.Env.Ledger.SetOnFunded(nil)
+		if c.Stepwise {
+			if out := evaluate(false); out != nil {
+				return out
+			}
+		}
+	}
 	// group steps
 	var groups [][]int
 	for i := 0; i < len(c.Steps); {
+		if c.Steps[i].Early {
+			i++
+			continue
+		}
 		g := []int{i}
-		for c.Steps[i].With && i+1 < len(c.Steps) && len(g) < 3 {
+		for c.Steps[i].With && i+1 < len(c.Steps) && !c.Steps[i+1].Early && len(g) < 3 {
 			i++
 			g = append(g, i)
 		}
 		i++
 		groups = append(groups, g)
 	}
-	var results []result
 	usedChans := map[int]bool{}
+	for _, k := range usedChansEarly {
+		usedChans[k] = true
+	}
 	overlaps := 0
 	for _, g := range groups {
 		// do opposite parties propose on the same channel in this group?
@@ -231,7 +626,13 @@ func runCase(c Case) *h.Outcome {
 		if len(g) > 1 {
 			overlaps++
 		}
-		limit := sim.HangLimit
+		// an honest update takes about a millisecond plus the handler delay; a
+		// request that is not answered within 5 s only makes the run one "in which a
+		// request timed out" (never an alarm), so the limit need not be generous
+		limit := 5 * time.Second
+		if shrinking.Load() {
+			limit = 400 * time.Millisecond
+		}
 		sawTimeout := false
 		for _, r := range results {
 			if r.kind == "timeout" {
@@ -256,7 +657,7 @@ func runCase(c Case) *h.Outcome {
 			if decisions[ch.ID()] == nil {
 				decisions[ch.ID()] = map[channel.Index]decision{}
 			}
-			decisions[ch.ID()][ch.Idx()] = decision{accept: s.Accept, delay: time.Duration(s.DelayMs) * time.Millisecond}
+			decisions[ch.ID()][ch.Idx()] = decision{accept: s.Accept, delay: time.Duration(s.DelayMs) * time.Millisecond, ctxEnds: s.CtxEnds}
 		}
 		dmu.Unlock()
 		for _, si := range g {
@@ -268,27 +669,7 @@ func runCase(c Case) *h.Outcome {
 			wg.Add(1)
 			go func(gi, si int) {
 				defer wg.Done()
-				s := c.Steps[si]
-				ch := chans[s.Chan][s.By]
-				from := int(ch.Idx())
-				if !s.ToPeer {
-					from ^= 1
-				}
-				var proposed *channel.State
-				startSeq := pr.Env.Seq.Load()
-				ctx, cancel := context.WithTimeout(context.Background(), limit)
-				defer cancel()
-				err := ch.Update(ctx, func(st *channel.State) {
-					amt := new(big.Int).SetUint64(s.Amount)
-					if st.Balances[0][from].Cmp(amt) >= 0 {
-						sim.Transfer(0, from, amt, s.Final)(st)
-					} else if s.Final {
-						st.IsFinal = true
-					}
-					proposed = st.Clone()
-					proposed.Version++
-				})
-				res[gi] = result{step: si, proposed: proposed, err: err, kind: classify(err), startSeq: startSeq, endSeq: pr.Env.Seq.Load()}
+				res[gi] = execStep(si, limit)
 			}(gi, si)
 		}
 		wg.Wait()
@@ -317,169 +698,26 @@ func runCase(c Case) *h.Outcome {
 				}
 			}
 		}
-	}
-	if !pr.Env.Quiesce(30*time.Millisecond, sim.HangLimit) {
-		return fail("harness", "world did not become quiet")
-	}
-	timedOut := false
-	for _, r := range results {
-		o.Class("update:" + r.kind)
-		if r.kind == "timeout" {
-			timedOut = true
-		}
-	}
-	if timedOut {
-		o.Class("run-with-timeout")
-	}
-	for _, r := range results {
-		// after a timed-out request a late response of the abandoned attempt can
-		// reach a later attempt with the same version; the property makes no
-		// promise for such runs beyond clause (c)
-		if r.kind == "other" && !timedOut {
-			return fail("update-unexpected-error", "step %d: Update failed with an error that is neither a rejection, a timeout nor a local refusal although no request timed out: %v", r.step, r.err)
-		}
-	}
-	// ---- merged log
-	type ev = sim.Event
-	var log []ev
-	for i := 0; i < 2; i++ {
-		log = append(log, pr.P[i].Rec.Events()...)
-	}
-	sort.Slice(log, func(i, j int) bool { return log[i].Seq < log[j].Seq })
-	params := map[channel.ID]*channel.Params{}
-	for k := range chans {
-		params[chans[k][0].ID()] = chans[k][0].Params()
-	}
-	// (c) every enabled transaction is fully and validly signed
-	type enabledEv struct {
-		seq uint64
-		enc []byte
-	}
-	enabledSeq := map[channel.ID][]enabledEv{}
-	enabledBy := [2]map[channel.ID]map[uint64][]byte{{}, {}}
-	who := map[string]int{pr.P[0].Name: 0, pr.P[1].Name: 1}
-	fullySigned := map[channel.ID]map[uint64]map[string]bool{}
-	ver := map[channel.ID]*[2]uint64{}
-	for _, e := range log {
-		p := params[e.Chan]
-		if p == nil {
-			continue
-		}
-		note := func(tx channel.Transaction) {
-			if tx.State == nil || verifyTx(p, tx) != nil {
-				return
-			}
-			if fullySigned[e.Chan] == nil {
-				fullySigned[e.Chan] = map[uint64]map[string]bool{}
-			}
-			if fullySigned[e.Chan][tx.State.Version] == nil {
-				fullySigned[e.Chan][tx.State.Version] = map[string]bool{}
-			}
-			fullySigned[e.Chan][tx.State.Version][string(enc(tx.State))] = true
-		}
-		note(e.Staged)
-		note(e.Cur)
-		if e.Kind != "enabled" {
-			continue
-		}
-		if err := verifyTx(p, e.Cur); err != nil {
-			return fail("enabled-not-fully-signed", "%s enabled version %d of channel %s: %v", e.Who, e.Cur.State.Version, sim.Describe(e.Chan), err)
-		}
-		i := who[e.Who]
-		if enabledBy[i][e.Chan] == nil {
-			enabledBy[i][e.Chan] = map[uint64][]byte{}
-		}
-		enabledBy[i][e.Chan][e.Cur.State.Version] = enc(e.Cur.State)
-		enabledSeq[e.Chan] = append(enabledSeq[e.Chan], enabledEv{e.Seq, enc(e.Cur.State)})
-		if ver[e.Chan] == nil {
-			ver[e.Chan] = &[2]uint64{}
-		}
-		ver[e.Chan][i] = e.Cur.State.Version
-		if !timedOut {
-			a, b := ver[e.Chan][0], ver[e.Chan][1]
-			if a > b+1 || b > a+1 {
-				return fail("versions-diverge", "channel %s: party versions %d and %d differ by more than one (no request timed out)", sim.Describe(e.Chan), a, b)
+		if c.Stepwise && !sawTimeout {
+			if out := evaluate(false); out != nil {
+				return out
 			}
 		}
 	}
-	if !timedOut {
-		for id, byVer := range fullySigned {
-			for v, states := range byVer {
-				if len(states) > 1 {
-					return fail("two-states-one-version", "channel %s: %d different states of version %d obtained both signatures", sim.Describe(id), len(states), v)
-				}
-			}
-		}
+	if c.Stepwise {
+		o.Class("stepwise")
 	}
-	// (a), (b) per update.  Only in runs without a timed-out request, as the
-	// property states: the response to an abandoned request stays cached at the
-	// proposer and can answer a later request with the same version number (the
-	// thorough tier found such a run: a stale rejection from a collision made a
-	// later, accepted update return "rejected").
+	if out := evaluate(true); out != nil {
+		return out
+	}
+	if len(usedChans) >= 2 {
+		o.Class("several-channels")
+	}
 	rejected := 0
 	for _, r := range results {
 		if r.kind == "rejected" {
 			rejected++
 		}
-		if timedOut {
-			continue
-		}
-		s := c.Steps[r.step]
-		ch := chans[s.Chan]
-		id := ch[0].ID()
-		if r.proposed == nil {
-			continue
-		}
-		pe := enc(r.proposed)
-		v := r.proposed.Version
-		switch r.kind {
-		case "ok":
-			got, ok := enabledBy[s.By][id][v]
-			if !ok || !bytes.Equal(got, pe) {
-				return fail("success-but-proposer-state-differs", "step %d: Update returned nil but the proposer did not enable the proposed state as version %d", r.step, v)
-			}
-			got, ok = enabledBy[s.By^1][id][v]
-			if !ok || !bytes.Equal(got, pe) {
-				return fail("success-but-peer-state-differs", "step %d: Update returned nil but at quiescence the peer has not enabled the proposed state as version %d", r.step, v)
-			}
-		case "rejected":
-			// while the call was running nobody enabled the proposed state (a later,
-			// identical proposal may of course be accepted), unless an identical
-			// proposal ran concurrently
-			twin := false
-			for _, r2 := range results {
-				if r2.step != r.step && r2.proposed != nil && c.Steps[r2.step].Chan == s.Chan && bytes.Equal(enc(r2.proposed), pe) && r2.startSeq <= r.endSeq && r.startSeq <= r2.endSeq {
-					twin = true
-				}
-			}
-			if twin {
-				o.Class("unspecified:identical-concurrent-proposal")
-				break
-			}
-			for _, ev := range enabledSeq[id] {
-				if ev.seq > r.startSeq && ev.seq <= r.endSeq && bytes.Equal(ev.enc, pe) {
-					return fail("rejected-but-enabled", "step %d: Update returned a rejection but the proposed state was enabled while the call was running", r.step)
-				}
-			}
-		}
-	}
-	// after a run without timeouts both sides agree and are ready
-	if !timedOut {
-		for k, ch := range chans {
-			a, b := ch[0].State(), ch[1].State()
-			if !bytes.Equal(enc(a), enc(b)) {
-				return fail("final-states-differ", "channel %d: the parties' current states differ at quiescence (v%d / v%d)", k, a.Version, b.Version)
-			}
-			for i := 0; i < 2; i++ {
-				ph := ch[i].Phase()
-				if ph != channel.Acting && ph != channel.Final {
-					return fail("not-ready", "channel %d: party %d is in phase %v at quiescence", k, i, ph)
-				}
-			}
-		}
-	}
-	if len(usedChans) >= 2 {
-		o.Class("several-channels")
 	}
 	if rejected > 0 {
 		o.Class("with-reject")
@@ -502,6 +740,7 @@ func TestUpdateAgreement(t *testing.T) {
 	rapid.Check(t, func(rt *rapid.T) {
 		c := drawCase(rt)
 		rec.MarkCurrent(c)
+		shrinking.Store(rec.Failed())
 		rec.Report(rt, c, runCase(c))
 	})
 }
